@@ -13,6 +13,11 @@ Monitor
     region answer now" is asked of a deepcopy (clone) of the region (area -> sky_within -> get_demoted -> area ->
     sky_within, so the read-only clause is evaluated on the clone as well); queries that are part of the history are
     made on the real object and their results checked too.
+  * add_pixels and union are also driven with the public `renorm=False` (deferred renormalisation).  After such a call
+    the caller has opted out of the normal form: the overlap clause and the get_area clauses are out of domain for that
+    region until its next renormalising operation (those steps are counted as not judged); deepest-level set,
+    sky_within, get_demoted, read-only queries and the results of later without/intersect/symmetric_difference stay
+    fully judged.
 """
 import contextlib
 import copy
@@ -31,7 +36,7 @@ ID = 'C08'
 LEVEL = 'exploration'
 RULE = ('a case is one history (random kind: length 12, depth 2..10, pool of operand regions of depth +-3, queries '
         'interleaved with p=0.4, ops generated from the case seed and the evolving model), one block of the '
-        'bounded-exhaustive enumeration (all sequences over the 17-operation alphabet with a given first operation), one '
+        'bounded-exhaustive enumeration (all sequences over the 20-operation alphabet with a given first operation), one '
         'targeted script, or one MIMAS.combine_regions container; an evaluation is one executed operation after which '
         'invariant + state-vs-model + clone answers were judged; a history is non-trivial when it changed the model at '
         'least once; distinct = case hash (exhaustive blocks count their sequences, all distinct by construction)')
@@ -49,7 +54,10 @@ MIN_COUNTERS = {'invariant_evaluated': 2000, 'steps_judged': 2000, 'probe_clones
                 'op_union_coarser': 20, 'op_add_pixels_bare': 50, 'op_add_pixels_renorm': 50,
                 'bare_add_pixels_coarse_after_query': 10, 'op_pickle': 20, 'op_self_operand': 5,
                 'op_empty_operand': 5, 'op_whole_sky_operand': 3, 'sky_within_probes_judged': 5000,
-                'combine_regions_judged': 3, 'exhaustive_sequences': 1000}
+                'combine_regions_judged': 3, 'exhaustive_sequences': 1000,
+                'op_union_renorm_false': 100, 'op_add_pixels_renorm_false': 50,
+                'union_renorm_false_with_coarse_pixels_after_query': 5,
+                'renorm_false_add_pixels_coarse_after_query': 5}
 BATCH_TIMEOUT = 1500
 
 AREA_RTOL = 1e-9        # float summation over <= 12 levels; the statement says "exactly", sets are compared exactly
@@ -208,6 +216,8 @@ class Slot:
         self.last_mutator = None
         self.queried = False         # a demoting call happened since the last renormalisation
         self.probe = True            # ask a clone for its answers after every step
+        self.optout = False          # the caller passed renorm=False: normal form and get_area are out of domain until
+                                     # the next operation that renormalises; membership stays fully judged
 
 
 def vec_of(ra, dec):
@@ -257,7 +267,7 @@ class History:
         except Exception:
             lv, cl = None, None
         return {'name': s.name, 'depth': s.depth, 'stored_per_level': lv, 'cache_len': cl, 'model_size': len(s.model),
-                'stale_cause': s.stale_cause, 'overlap_cause': s.overlap_cause}
+                'stale_cause': s.stale_cause, 'overlap_cause': s.overlap_cause, 'renorm_opted_out': s.optout}
 
     def violate(self, clause, detail, rec, slot=None):
         w = {'step': len(self.hist), 'op': self.compact(rec), 'slot': slot,
@@ -332,6 +342,9 @@ class History:
             for p in e['problems']:
                 if p['kind'] == 'ancestor_and_descendant_stored':
                     cause = self.label(rec)
+                    if s is not None and s.optout:
+                        self.o.count('overlap_not_judged_renorm_opted_out')
+                        continue
                     if s is not None:
                         if s.overlap_cause is not None:
                             self.o.count('overlap_persisting_steps')
@@ -360,7 +373,11 @@ class History:
     @staticmethod
     def label(rec):
         if rec.get('op') == 'add_pixels':
+            if rec.get('optout'):
+                return 'add_pixels_renorm_false'
             return 'add_pixels_renorm' if rec.get('renorm') else 'add_pixels_bare'
+        if rec.get('op') == 'union' and rec.get('optout'):
+            return 'union_renorm_false'
         return rec.get('op', '?')
 
     def judge(self, i, rec, stale_before=None):
@@ -426,7 +443,8 @@ class History:
         o.count('probe_clones')
         o.count('sky_within_probes_judged', 2 * len(expw))
         tol = AREA_RTOL * max(model_area, 1e-30)
-        o.worst('area_rel_err', abs(a0 - model_area) / model_area if model_area > 0 else abs(a0))
+        if not s.optout:
+            o.worst('area_rel_err', abs(a0 - model_area) / model_area if model_area > 0 else abs(a0))
         bad = False
         if d0f or d0l[s.depth] != s.model:
             self.violate('probe_get_demoted', self.diff(d0l[s.depth], s.model, stale_before, frac=d0f), rec, i)
@@ -437,10 +455,12 @@ class History:
                                               'model': bool(expw[j]), 'n_wrong': int((w0 != expw).sum()),
                                               'stale_before_op': stale_before}, rec, i)
             bad = True
-        if not abs(a0 - model_area) <= tol:
+        if s.optout:
+            o.count('area_not_judged_renorm_opted_out')
+        elif not abs(a0 - model_area) <= tol:
             self.violate('probe_get_area', {'get_area': a0, 'model_area': model_area,
                                             'ratio': a0 / model_area if model_area else None}, rec, i)
-        if not abs(a1 - a0) <= AREA_RTOL * max(abs(a0), 1e-30):
+        if not s.optout and not abs(a1 - a0) <= AREA_RTOL * max(abs(a0), 1e-30):
             o.count('query_changed_area')
             self.violate('probe_query_changes_area', {'area_before_queries': a0, 'area_after_queries': a1,
                                                       'model_area': model_area}, rec, i)
@@ -499,6 +519,7 @@ class History:
             ok, _ = self.subject(rec, i, r.add_circles, *args, **({} if dd is None else {'depth': dd}))
             s.model |= add
             s.queried = False
+            s.optout = False
         elif op == 'add_poly':
             dd = rec.get('depth')
             de = M if (dd is None or dd > M) else dd
@@ -509,6 +530,7 @@ class History:
             ok, _ = self.subject(rec, i, r.add_poly, [list(p) for p in pos], **({} if dd is None else {'depth': dd}))
             s.model |= hs.change_depth(set(int(p) for p in pix), de, M)
             s.queried = False
+            s.optout = False
         elif op == 'add_pixels':
             dd = rec['depth']
             pix = [int(p) for p in rec['pix']]
@@ -522,7 +544,13 @@ class History:
                 if s.queried and len(r.demoted):
                     o.count(('bare_add_pixels' if not rec.get('renorm') else 'renorm_add_pixels') + '_coarse_after_query')
             self.hist.append(self.compact(rec))
-            if rec.get('renorm'):
+            if rec.get('optout'):
+                # the documented deferred mode: the caller takes charge of the normal form
+                if dd < M and s.queried and len(r.demoted):
+                    o.count('renorm_false_add_pixels_coarse_after_query')
+                ok, _ = self.subject(rec, i, lambda: r.add_pixels(arg, dd, renorm=False))
+                s.optout = True
+            elif rec.get('renorm'):
                 # the pair MIMAS itself uses: add_pixels then _renorm; judged after the pair
                 _Mon.defer += 1
                 try:
@@ -532,8 +560,10 @@ class History:
                 if ok:
                     ok, _ = self.subject(rec, i, r._renorm)
                     s.queried = False
+                s.optout = False
             else:
                 ok, _ = self.subject(rec, i, r.add_pixels, arg, dd)
+                s.optout = False        # add_pixels renormalises by default
             s.model |= hs.change_depth(set(pix), dd, M)
         elif op in ('union', 'without', 'intersect', 'symmetric_difference'):
             j = rec['o']
@@ -557,9 +587,17 @@ class History:
                 new = {'without': s.model - other, 'intersect': s.model & other,
                        'symmetric_difference': s.model ^ other}[op]
             self.hist.append(self.compact(rec))
-            ok, _ = self.subject(rec, i, getattr(r, op), t.region)
+            if op == 'union' and rec.get('optout'):
+                o.count('op_union_renorm_false')
+                if s.queried and len(r.demoted) and any(len(x) for d, x in t.region.pixeldict.items() if d < M):
+                    o.count('union_renorm_false_with_coarse_pixels_after_query')
+                ok, _ = self.subject(rec, i, lambda: r.union(t.region, renorm=False))
+                s.optout = True
+            else:
+                ok, _ = self.subject(rec, i, getattr(r, op), t.region)
+                s.queried = False
+                s.optout = False
             s.model = new
-            s.queried = False
             if op != 'union':
                 t.queried = True
         elif op == 'sky_within':
@@ -603,8 +641,11 @@ class History:
             ok, res = self.subject(rec, i, r.get_area, deg)
             if ok:
                 ma = hs.set_area(len(s.model), M, degrees=deg)
-                o.count('get_area_judged')
-                if not abs(res - ma) <= AREA_RTOL * max(ma, 1e-30):
+                if s.optout:
+                    o.count('get_area_not_judged_renorm_opted_out')
+                else:
+                    o.count('get_area_judged')
+                if not s.optout and not abs(res - ma) <= AREA_RTOL * max(ma, 1e-30):
                     self.violate('get_area_vs_model', {'get_area': res, 'model_area': ma, 'degrees': deg}, rec, i)
         elif op == 'pickle':
             self.hist.append(self.compact(rec))
@@ -655,7 +696,7 @@ def _resol(M):
 
 ALPHABET = ['circle1', 'circle2', 'poly', 'pix_coarse_bare', 'pix_coarse_renorm', 'pix_deep_bare', 'pix_deep_renorm',
             'union_equal', 'union_finer', 'union_coarser', 'without', 'intersect', 'symdiff', 'sky_within',
-            'get_demoted', 'get_area', 'pickle']
+            'get_demoted', 'get_area', 'pickle', 'pix_coarse_norenorm', 'union_equal_norenorm', 'union_coarser_norenorm']
 
 
 def _exhaustive_setup(M):
@@ -679,6 +720,10 @@ def _exhaustive_setup(M):
         'union_equal': {'op': 'union', 't': 0, 'o': 1},
         'union_finer': {'op': 'union', 't': 0, 'o': 2},
         'union_coarser': {'op': 'union', 't': 0, 'o': 3},
+        # the public renorm=False mode (deferred renormalisation)
+        'pix_coarse_norenorm': {'op': 'add_pixels', 't': 0, 'pix': [p1 >> 2], 'depth': M - 1, 'optout': True},
+        'union_equal_norenorm': {'op': 'union', 't': 0, 'o': 1, 'optout': True},
+        'union_coarser_norenorm': {'op': 'union', 't': 0, 'o': 3, 'optout': True},
         'without': {'op': 'without', 't': 0, 'o': 4},
         'intersect': {'op': 'intersect', 't': 0, 'o': 5},
         'symdiff': {'op': 'symmetric_difference', 't': 0, 'o': 1},
@@ -847,7 +892,8 @@ def run_random(case, o, workdir, length=None, return_history=False):
         else:
             kind = rng.choice(['add_circles', 'add_poly', 'add_pixels', 'add_pixels', 'add_pixels_renorm',
                                'add_pixels_renorm', 'union', 'union', 'union', 'without', 'without', 'intersect',
-                               'symmetric_difference', 'pickle'])
+                               'symmetric_difference', 'pickle', 'add_pixels_norenorm', 'union_norenorm',
+                               'union_norenorm'])
             if kind == 'add_circles':
                 ra, dec, r = _gen_circle(rng, anchor, Mt if Mt <= M else M)
                 rec = {'op': 'add_circles', 't': t, 'ra': ra, 'dec': dec, 'r': r}
@@ -867,13 +913,18 @@ def run_random(case, o, workdir, length=None, return_history=False):
                 except Exception:
                     o.count('generator_rejected_polygon')
                     continue
-            elif kind in ('add_pixels', 'add_pixels_renorm'):
+            elif kind in ('add_pixels', 'add_pixels_renorm', 'add_pixels_norenorm'):
                 pix, dd = _gen_pixels(rng, s, Mt)
-                rec = {'op': 'add_pixels', 't': t, 'pix': pix, 'depth': dd, 'renorm': kind.endswith('renorm'),
+                rec = {'op': 'add_pixels', 't': t, 'pix': pix, 'depth': dd, 'renorm': kind.endswith('_renorm'),
                        'as': str(rng.choice(['list', 'ndarray', 'set']))}
+                if kind == 'add_pixels_norenorm':
+                    rec['optout'] = True
             elif kind == 'pickle':
                 rec = {'op': 'pickle', 't': t}
             else:
+                optout = kind == 'union_norenorm'
+                if optout:
+                    kind = 'union'
                 if kind == 'union':
                     cands = [k for k in (T, E1, E2, F, C, EMPTY, WHOLE, t) if k is not None]
                     w = np.array([1.0 if h.pool[k].depth == Mt else 2.0 for k in cands])
@@ -882,6 +933,8 @@ def run_random(case, o, workdir, length=None, return_history=False):
                     cands = [k for k in (T, E1, E2, EMPTY, WHOLE, t, F, C) if k is not None and h.pool[k].depth == Mt]
                     j = int(rng.choice(cands))
                 rec = {'op': str(kind), 't': t, 'o': j}
+                if optout:
+                    rec['optout'] = True
                 # size guard on the result (a whole-sky operand united into a finer region would be 12*4**9 pixels)
                 if kind in ('union', 'symmetric_difference') and \
                         len(h.pool[j].model) * 4 ** max(0, Mt - h.pool[j].depth) > MAX_PIX:
@@ -917,6 +970,30 @@ TARGETED = {
         {'op': 'sky_within', 't': 0}, {'op': 'get_demoted', 't': 0},
         {'op': 'add_pixels', 't': 1, 'pix': [100], 'depth': 2, 'renorm': True},
         {'op': 'without', 't': 0, 'o': 1}, {'op': 'get_area', 't': 0}]},
+    # the deferred mode: query -> union(renorm=False) with an operand holding coarse pixels -> query -> without
+    'query_union_norenorm_query_without': {'depth': 4, 'pool': [4, 4, 4, 4], 'ops': [
+        {'op': 'add_circles', 't': 0, 'ra': [1.0], 'dec': [0.3], 'r': [0.1]},
+        {'op': 'add_circles', 't': 1, 'ra': [3.0], 'dec': [-0.2], 'r': [0.35]},        # wide: normal form has coarse pixels
+        {'op': 'add_pixels', 't': 2, 'pix': [100, 7], 'depth': 2, 'renorm': True},
+        {'op': 'sky_within', 't': 0},
+        {'op': 'union', 't': 0, 'o': 1, 'optout': True},
+        {'op': 'sky_within', 't': 0}, {'op': 'get_demoted', 't': 0}, {'op': 'get_area', 't': 0},
+        {'op': 'without', 't': 0, 'o': 1}, {'op': 'get_demoted', 't': 0}, {'op': 'get_area', 't': 0},
+        {'op': 'get_demoted', 't': 0},
+        {'op': 'union', 't': 0, 'o': 2, 'optout': True}, {'op': 'get_demoted', 't': 0},
+        {'op': 'symmetric_difference', 't': 0, 'o': 2}, {'op': 'sky_within', 't': 0}, {'op': 'get_area', 't': 0},
+        {'op': 'sky_within', 't': 3},
+        {'op': 'union', 't': 3, 'o': 1, 'optout': True}, {'op': 'intersect', 't': 3, 'o': 2},
+        {'op': 'get_demoted', 't': 3}]},
+    'query_add_pixels_norenorm_query_without': {'depth': 4, 'pool': [4, 4], 'ops': [
+        {'op': 'add_circles', 't': 0, 'ra': [1.0], 'dec': [0.3], 'r': [0.1]},
+        {'op': 'add_pixels', 't': 1, 'pix': [100], 'depth': 2, 'renorm': True},
+        {'op': 'get_demoted', 't': 0},
+        {'op': 'add_pixels', 't': 0, 'pix': [100], 'depth': 2, 'optout': True},
+        {'op': 'sky_within', 't': 0}, {'op': 'get_demoted', 't': 0},
+        {'op': 'add_pixels', 't': 0, 'pix': [1600, 25], 'depth': 4, 'optout': True},     # 1600@4 lies inside 100@2
+        {'op': 'get_area', 't': 0}, {'op': 'sky_within', 't': 0},
+        {'op': 'without', 't': 0, 'o': 1}, {'op': 'get_demoted', 't': 0}, {'op': 'get_area', 't': 0}]},
     # bare coarse insertion over existing content (parent of stored pixels), no query before
     'coarse_over_content': {'depth': 4, 'pool': [4], 'ops': [
         {'op': 'add_pixels', 't': 0, 'pix': [1600, 1601, 1700], 'depth': 4, 'renorm': True},
